@@ -1,3 +1,510 @@
 package exec
 
-type vfs struct{}
+import (
+	"fmt"
+	"go/token"
+	"path/filepath"
+	"sort"
+	"strings"
+
+	"golang.org/x/tools/go/ssa"
+)
+
+// Virtual file system (C03, C18, C20). The harness builds a directory tree
+// with vfs* primitives; bkl's file code runs from its real SSA and every
+// file-system call it makes is answered from this tree under the documented
+// contracts:
+//   os.Stat / filepath.Glob / filepath.EvalSymlinks   existence and link
+//       structure as built (NOT confined to a root - as the real ones)
+//   os.OpenRoot / (*os.Root).OpenRoot / (*os.Root).Open   fail when the
+//       path is absolute or, resolved component by component INCLUDING
+//       symlink targets, leaves the root directory (the os.Root guarantee)
+//   io.ReadAll + Format.UnmarshalStream   yield the file's logical documents
+//   os.Open / os.ReadFile   unconfined reads (recorded: bkl must not use them)
+// Paths are concrete; document contents may be symbolic.
+
+type vnode struct {
+	kind   string // "file", "dir", "link"
+	docs   []value
+	target string // link target (as written: relative to the link's directory, or absolute)
+	raw    value  // written content (OpenFile/CreateTemp), opaque
+}
+
+type vfs struct {
+	cwd     string
+	nodes   map[string]*vnode
+	reads   []string // files whose content was obtained, with the way it was obtained
+	writes  map[string]value
+	tmpN    int
+	args    []string
+	path    map[string]string // exec.LookPath
+	execved *execRec
+}
+
+type execRec struct {
+	path string
+	argv []value
+}
+
+func (m *Machine) fs() *vfs {
+	if m.vfs == nil {
+		m.vfs = &vfs{cwd: "/w", nodes: map[string]*vnode{"/": {kind: "dir"}, "/w": {kind: "dir"}}, writes: map[string]value{}, path: map[string]string{}}
+	}
+	return m.vfs
+}
+
+func (v *vfs) abs(p string) string {
+	if filepath.IsAbs(p) {
+		return filepath.Clean(p)
+	}
+	return filepath.Join(v.cwd, p)
+}
+
+func (v *vfs) mkdirs(p string) {
+	for d := filepath.Dir(p); ; d = filepath.Dir(d) {
+		if _, ok := v.nodes[d]; !ok {
+			v.nodes[d] = &vnode{kind: "dir"}
+		}
+		if d == "/" {
+			return
+		}
+	}
+}
+
+// resolve follows symlinks in every component of the absolute path p.
+// root != "" confines the walk: leaving root at any point fails.
+func (v *vfs) resolve(p string, root string, depth int) (string, *vnode, error) {
+	if depth > 16 {
+		return "", nil, fmt.Errorf("too many levels of symbolic links")
+	}
+	p = filepath.Clean(p)
+	if root != "" && !within(p, root) {
+		return "", nil, fmt.Errorf("path escapes from parent")
+	}
+	parts := strings.Split(strings.TrimPrefix(p, "/"), "/")
+	cur := "/"
+	for i, part := range parts {
+		if part == "" {
+			continue
+		}
+		next := filepath.Join(cur, part)
+		n, ok := v.nodes[next]
+		if !ok {
+			return "", nil, errNotExist
+		}
+		if n.kind == "link" {
+			t := n.target
+			if !filepath.IsAbs(t) {
+				t = filepath.Join(cur, t)
+			} else if root != "" {
+				// os.Root: an absolute link target is outside the root by definition
+				return "", nil, fmt.Errorf("path escapes from parent")
+			}
+			rest := filepath.Join(parts[i+1:]...)
+			return v.resolve(filepath.Join(t, rest), root, depth+1)
+		}
+		if root != "" && !within(next, root) && !within(root, next) {
+			return "", nil, fmt.Errorf("path escapes from parent")
+		}
+		cur = next
+	}
+	return cur, v.nodes[cur], nil
+}
+
+var errNotExist = fmt.Errorf("no such file or directory")
+
+func within(p, root string) bool {
+	if root == "/" {
+		return true
+	}
+	return p == root || strings.HasPrefix(p, root+"/")
+}
+
+type rootHandle struct{ path string }
+type fileHandle struct {
+	path  string
+	write bool
+}
+type fileBytes struct{ path string }
+
+func (m *Machine) notExistErr(p string) value {
+	return m.mkErr("stat "+p+": no such file or directory", false, m.osErrNotExist())
+}
+
+func (m *Machine) osErrNotExist() value {
+	if m.shared.Pkgs["os"] == nil {
+		return iface{}
+	}
+	g, _ := m.shared.Pkgs["os"].Members["ErrNotExist"].(*ssa.Global)
+	if g == nil {
+		return iface{}
+	}
+	return *m.global(g)
+}
+
+func init() {
+	reg := func(name string, f foreignFn) { vfsTab[name] = f }
+	reg("path/filepath.Abs", func(m *Machine, fr *frame, pos token.Pos, a []value) value {
+		return tuple{m.fs().abs(concStr(a[0], "filepath.Abs")), iface{}}
+	})
+	reg("path/filepath.Rel", func(m *Machine, fr *frame, pos token.Pos, a []value) value {
+		r, err := filepath.Rel(concStr(a[0], "filepath.Rel"), concStr(a[1], "filepath.Rel"))
+		if err != nil {
+			return tuple{"", m.mkErr(err.Error(), false)}
+		}
+		return tuple{r, iface{}}
+	})
+	reg("os.Stat", func(m *Machine, fr *frame, pos token.Pos, a []value) value {
+		if ss, ok := a[0].(symStr); ok {
+			// a symbolic path exists iff it equals the (cwd-relative or
+			// absolute) name of an entry; each comparison is solver-decided
+			v := m.fs()
+			var names []string
+			for p := range v.nodes {
+				names = append(names, p)
+				if rel, err := filepath.Rel(v.cwd, p); err == nil && !strings.HasPrefix(rel, "..") {
+					names = append(names, rel)
+				}
+			}
+			sort.Strings(names)
+			for _, n := range names {
+				nb, _ := m.strTerms(n)
+				if m.decide(m.strEq(ss.B, nb)) {
+					return tuple{iface{t: m.shared.errorT, v: opaque{kind: "fileinfo", payload: n}}, iface{}}
+				}
+			}
+			return tuple{iface{}, m.notExistErr("<symbolic>")}
+		}
+		p := m.fs().abs(concStr(a[0], "os.Stat"))
+		if _, _, err := m.fs().resolve(p, "", 0); err != nil {
+			return tuple{iface{}, m.notExistErr(p)}
+		}
+		return tuple{iface{t: m.shared.errorT, v: opaque{kind: "fileinfo", payload: p}}, iface{}}
+	})
+	reg("path/filepath.Glob", func(m *Machine, fr *frame, pos token.Pos, a []value) value {
+		v := m.fs()
+		pat := concStr(a[0], "filepath.Glob")
+		absPat := v.abs(pat)
+		dir := filepath.Dir(absPat)
+		rdir, _, err := v.resolve(dir, "", 0)
+		out := []value{}
+		if err == nil {
+			var names []string
+			for p := range v.nodes {
+				if filepath.Dir(p) == rdir && p != "/" {
+					if ok, _ := filepath.Match(filepath.Base(absPat), filepath.Base(p)); ok {
+						names = append(names, filepath.Join(filepath.Dir(pat), filepath.Base(p)))
+					}
+				}
+			}
+			sort.Strings(names)
+			for _, n := range names {
+				out = append(out, n)
+			}
+		}
+		if _, err := filepath.Match(filepath.Base(absPat), "x"); err != nil {
+			return tuple{[]value(nil), m.mkErr(err.Error(), false)}
+		}
+		return tuple{out, iface{}}
+	})
+	reg("path/filepath.EvalSymlinks", func(m *Machine, fr *frame, pos token.Pos, a []value) value {
+		v := m.fs()
+		p := concStr(a[0], "filepath.EvalSymlinks")
+		rp, _, err := v.resolve(v.abs(p), "", 0)
+		if err != nil {
+			return tuple{"", m.notExistErr(p)}
+		}
+		if !filepath.IsAbs(p) {
+			// the real function keeps relative paths relative
+			if rel, err := filepath.Rel(v.cwd, rp); err == nil {
+				rp = rel
+			}
+		}
+		return tuple{rp, iface{}}
+	})
+	reg("os.OpenRoot", func(m *Machine, fr *frame, pos token.Pos, a []value) value {
+		v := m.fs()
+		p := v.abs(concStr(a[0], "os.OpenRoot"))
+		rp, n, err := v.resolve(p, "", 0)
+		if err != nil || n.kind != "dir" {
+			return tuple{(*value)(nil), m.notExistErr(p)}
+		}
+		return tuple{opaquePtr("root", &rootHandle{path: rp}), iface{}}
+	})
+	reg("(*os.Root).OpenRoot", func(m *Machine, fr *frame, pos token.Pos, a []value) value {
+		v := m.fs()
+		r := opaqueOf(a[0], "root").(*rootHandle)
+		rel := concStr(a[1], "Root.OpenRoot")
+		if filepath.IsAbs(rel) {
+			return tuple{(*value)(nil), m.mkErr("openat "+rel+": path escapes from parent", false)}
+		}
+		rp, n, err := v.resolve(filepath.Join(r.path, rel), r.path, 0)
+		if err != nil {
+			return tuple{(*value)(nil), m.mkErr("openat "+rel+": "+err.Error(), false)}
+		}
+		if n.kind != "dir" {
+			return tuple{(*value)(nil), m.mkErr("openat "+rel+": not a directory", false)}
+		}
+		return tuple{opaquePtr("root", &rootHandle{path: rp}), iface{}}
+	})
+	reg("(*os.Root).Open", func(m *Machine, fr *frame, pos token.Pos, a []value) value {
+		v := m.fs()
+		r := opaqueOf(a[0], "root").(*rootHandle)
+		rel := concStr(a[1], "Root.Open")
+		if filepath.IsAbs(rel) {
+			return tuple{(*value)(nil), m.mkErr("openat "+rel+": path escapes from parent", false)}
+		}
+		rp, n, err := v.resolve(filepath.Join(r.path, rel), r.path, 0)
+		if err != nil {
+			return tuple{(*value)(nil), m.mkErr("openat "+rel+": "+err.Error(), false)}
+		}
+		if n.kind != "file" {
+			return tuple{(*value)(nil), m.mkErr("openat "+rel+": is a directory", false)}
+		}
+		v.reads = append(v.reads, "root:"+rp)
+		return tuple{opaquePtr("file", &fileHandle{path: rp}), iface{}}
+	})
+	unconfined := func(name string) foreignFn {
+		return func(m *Machine, fr *frame, pos token.Pos, a []value) value {
+			v := m.fs()
+			p := v.abs(concStr(a[0], name))
+			rp, n, err := v.resolve(p, "", 0)
+			if err != nil || n.kind != "file" {
+				if name == "os.ReadFile" {
+					return tuple{[]value(nil), m.notExistErr(p)}
+				}
+				return tuple{(*value)(nil), m.notExistErr(p)}
+			}
+			v.reads = append(v.reads, "unconfined:"+rp)
+			if name == "os.ReadFile" {
+				return tuple{opaque{kind: "filebytes", payload: &fileBytes{path: rp}}, iface{}}
+			}
+			return tuple{opaquePtr("file", &fileHandle{path: rp}), iface{}}
+		}
+	}
+	reg("os.Open", unconfined("os.Open"))
+	reg("os.ReadFile", unconfined("os.ReadFile"))
+	reg("io.ReadAll", func(m *Machine, fr *frame, pos token.Pos, a []value) value {
+		i, ok := a[0].(iface)
+		if !ok || i.t == nil {
+			unsupported("io.ReadAll of %T", a[0])
+		}
+		p, ok := i.v.(*value)
+		if !ok || p == nil {
+			unsupported("io.ReadAll: reader %T (stdin is outside the claim)", i.v)
+		}
+		fh := opaqueOf(p, "file").(*fileHandle)
+		return tuple{opaque{kind: "filebytes", payload: &fileBytes{path: fh.path}}, iface{}}
+	})
+	reg("(*os.File).Close", func(m *Machine, fr *frame, pos token.Pos, a []value) value { return iface{} })
+	reg("(*os.File).Name", func(m *Machine, fr *frame, pos token.Pos, a []value) value {
+		return opaqueOf(a[0], "file").(*fileHandle).path
+	})
+	reg("(*os.File).Write", func(m *Machine, fr *frame, pos token.Pos, a []value) value {
+		fh := opaqueOf(a[0], "file").(*fileHandle)
+		m.fs().writes[fh.path] = a[1]
+		if n, ok := m.fs().nodes[fh.path]; ok {
+			n.raw = a[1]
+		}
+		if bs, ok := a[1].([]value); ok {
+			return tuple{len(bs), iface{}}
+		}
+		return tuple{0, iface{}}
+	})
+	reg("os.OpenFile", func(m *Machine, fr *frame, pos token.Pos, a []value) value {
+		v := m.fs()
+		p := v.abs(concStr(a[0], "os.OpenFile"))
+		if _, ok := v.nodes[filepath.Dir(p)]; !ok {
+			return tuple{(*value)(nil), m.notExistErr(p)}
+		}
+		if _, ok := v.nodes[p]; !ok {
+			v.nodes[p] = &vnode{kind: "file"}
+		}
+		return tuple{opaquePtr("file", &fileHandle{path: p, write: true}), iface{}}
+	})
+	reg("os.CreateTemp", func(m *Machine, fr *frame, pos token.Pos, a []value) value {
+		v := m.fs()
+		pat := concStr(a[1], "os.CreateTemp")
+		v.tmpN++
+		name := strings.Replace(pat, "*", fmt.Sprintf("tmp%d", v.tmpN), 1)
+		if !strings.Contains(pat, "*") {
+			name = pat + fmt.Sprintf("tmp%d", v.tmpN)
+		}
+		p := filepath.Join("/tmp", name)
+		v.mkdirs(p)
+		v.nodes[p] = &vnode{kind: "file"}
+		return tuple{opaquePtr("file", &fileHandle{path: p, write: true}), iface{}}
+	})
+	reg("os/exec.LookPath", func(m *Machine, fr *frame, pos token.Pos, a []value) value {
+		name := concStr(a[0], "exec.LookPath")
+		if p, ok := m.fs().path[name]; ok {
+			return tuple{p, iface{}}
+		}
+		return tuple{"", m.mkErr("exec: \""+name+"\": executable file not found in $PATH", false)}
+	})
+	reg("syscall.Exec", func(m *Machine, fr *frame, pos token.Pos, a []value) value {
+		m.fs().execved = &execRec{path: concStr(a[0], "syscall.Exec"), argv: a[1].([]value)}
+		m.exitOK = true
+		panic(pathEnd{kind: "exec", msg: "syscall.Exec"})
+	})
+	reg("golang.org/x/exp/slices.Clone", fSlicesClone)
+	reg("runtime/debug.ReadBuildInfo", func(m *Machine, fr *frame, pos token.Pos, a []value) value {
+		return tuple{(*value)(nil), false}
+	})
+}
+
+var vfsTab = map[string]foreignFn{}
+
+// ---- harness primitives ----
+
+func init() {
+	intrinsicsVFS = map[string]intrinsicFn{
+		"vfsReset": func(m *Machine, fr *frame, fn *ssa.Function, a []value) value {
+			m.vfs = nil
+			m.fs()
+			return nil
+		},
+		"vfsAddFile": func(m *Machine, fr *frame, fn *ssa.Function, a []value) value {
+			v := m.fs()
+			p := v.abs(concStr(a[0], "vfsAddFile"))
+			v.mkdirs(p)
+			var docs []value
+			for _, d := range variadic(a[1]) {
+				docs = append(docs, m.snapshot(d))
+			}
+			v.nodes[p] = &vnode{kind: "file", docs: docs}
+			return nil
+		},
+		"vfsAddSymlink": func(m *Machine, fr *frame, fn *ssa.Function, a []value) value {
+			v := m.fs()
+			p := v.abs(concStr(a[0], "vfsAddSymlink"))
+			v.mkdirs(p)
+			v.nodes[p] = &vnode{kind: "link", target: concStr(a[1], "vfsAddSymlink")}
+			return nil
+		},
+		"vfsAddDir": func(m *Machine, fr *frame, fn *ssa.Function, a []value) value {
+			v := m.fs()
+			p := v.abs(concStr(a[0], "vfsAddDir"))
+			v.mkdirs(p)
+			v.nodes[p] = &vnode{kind: "dir"}
+			return nil
+		},
+		"vfsAbs": func(m *Machine, fr *frame, fn *ssa.Function, a []value) value {
+			return m.fs().abs(concStr(a[0], "vfsAbs"))
+		},
+		"vfsChdir": func(m *Machine, fr *frame, fn *ssa.Function, a []value) value {
+			v := m.fs()
+			v.cwd = v.abs(concStr(a[0], "vfsChdir"))
+			return nil
+		},
+		"vRunWrapper": func(m *Machine, fr *frame, fn *ssa.Function, a []value) value {
+			return m.runWrapper(fr, a)
+		},
+		"vfsUnconfinedReads": func(m *Machine, fr *frame, fn *ssa.Function, a []value) value {
+			n := 0
+			for _, r := range m.fs().reads {
+				if strings.HasPrefix(r, "unconfined:") {
+					n++
+				}
+			}
+			return n
+		},
+		"vfsReadsOutside": func(m *Machine, fr *frame, fn *ssa.Function, a []value) value {
+			root := m.fs().abs(concStr(a[0], "vfsReadsOutside"))
+			n := 0
+			for _, r := range m.fs().reads {
+				p := r[strings.IndexByte(r, ':')+1:]
+				if !within(p, root) {
+					n++
+				}
+			}
+			return n
+		},
+	}
+}
+
+var intrinsicsVFS map[string]intrinsicFn
+
+// vfileDocs returns fresh copies of the logical documents of a virtual file.
+func (m *Machine) vfileDocs(fb *fileBytes) []value {
+	n := m.fs().nodes[fb.path]
+	out := make([]value, len(n.docs))
+	for i, d := range n.docs {
+		out[i] = m.snapshot(d)
+	}
+	return out
+}
+
+// runWrapper(cmd string, found bool, args ...string) (code int, argv []string, contents []string)
+// runs wrapper.WrapOrDie(cmd) with os.Args = ["bklb", args...], PATH lookup
+// succeeding or not, and reports what reached syscall.Exec: code -1 and the
+// argv (contents[i] = what the wrapper wrote to the file named argv[i], ""
+// if it wrote none), or the exit code.
+func (m *Machine) runWrapper(fr *frame, a []value) value {
+	cmd := concStr(a[0], "vRunWrapper")
+	found := a[1].(bool)
+	args := variadic(a[2])
+	v := m.fs()
+	if found {
+		v.path[cmd] = "/usr/bin/" + cmd
+	}
+	v.execved = nil
+	osPkg := m.shared.Pkgs["os"]
+	g, _ := osPkg.Members["Args"].(*ssa.Global)
+	if g == nil {
+		unsupported("os.Args not found")
+	}
+	*m.global(g) = append([]value{"bklb"}, args...)
+	wp := m.shared.Pkgs[m.shared.RootPath+"/wrapper"]
+	if wp == nil || wp.Func("WrapOrDie") == nil {
+		unsupported("wrapper.WrapOrDie not loaded")
+	}
+	code := -2
+	func() {
+		defer func() {
+			r := recover()
+			if r == nil {
+				return
+			}
+			pe, ok := r.(pathEnd)
+			if !ok || (pe.kind != "exit" && pe.kind != "exec") {
+				panic(r)
+			}
+			if pe.kind == "exec" {
+				code = -1
+			} else if m.exitCode != nil {
+				code = *m.exitCode
+			}
+		}()
+		m.call(fr, token.NoPos, wp.Func("WrapOrDie"), []value{cmd})
+	}()
+	argv := []value{}
+	contents := []value{}
+	if code == -1 && v.execved != nil {
+		for _, e := range v.execved.argv {
+			argv = append(argv, e)
+			c := value("")
+			if s, ok := e.(string); ok {
+				if w, ok := v.writes[s]; ok {
+					if bs, ok := w.([]value); ok {
+						bt := make([]byte, 0, len(bs))
+						okb := true
+						for _, b := range bs {
+							u, isU := b.(uint8)
+							if !isU {
+								okb = false
+								break
+							}
+							bt = append(bt, u)
+						}
+						if okb {
+							c = string(bt)
+						}
+					}
+				}
+			}
+			contents = append(contents, c)
+		}
+	}
+	return tuple{code, argv, contents}
+}
